@@ -617,6 +617,52 @@ def wiring(chk: core.Check):
     chk.count(len(keys), key="wiring")
 
 
+INTERP_CHILD = r"""
+import sys, json, hashlib, warnings
+warnings.filterwarnings("ignore")
+import awkward as ak, uproot, pybes3
+out = {}
+for spec in sys.argv[1:]:
+    path, name = spec.split("::")
+    a = uproot.open(path)["Event"][name].array()
+    out[spec] = [str(a.type), hashlib.sha256(json.dumps(ak.to_list(a), default=str).encode()).hexdigest(), len(a)]
+print(json.dumps(out))
+"""
+
+
+def interpreter_modes(chk: core.Check):
+    """the same collections read by the interpreter in its ordinary mode and with assertions / docstrings compiled away (`python -O`, `-OO`,
+    PYTHONOPTIMIZE - usual in batch containers): same type, same values"""
+    import os
+    import subprocess
+    specs = []
+    for fn, names in (("test_full_mc_evt_1.rtraw", ["TDigiEvent/m_mdcDigiCol", "TDigiEvent/m_emcDigiCol", "TMcEvent/m_mcParticleCol"]),
+                      ("test_full_mc_evt_1.dst", ["TDstEvent/m_mdcTrackCol", "TDstEvent/m_emcTrackCol"]), ("test_cgem.rec", ["TRecEvent/m_recCgemClusterCol"])):
+        p = core.REPO / "tests" / "data" / fn
+        if p.exists():
+            specs += [f"{p}::{n}" for n in names]
+    if not specs:
+        return
+    res = {}
+    for mode, flags in (("ordinary", []), ("-O", ["-O"]), ("-OO", ["-OO"])):
+        r = subprocess.run([core.PY, *flags, "-c", INTERP_CHILD, *specs], capture_output=True, text=True, timeout=900, env=dict(os.environ))
+        lines = [l for l in r.stdout.splitlines() if l.startswith("{")]
+        res[mode] = json.loads(lines[-1]) if lines else {"error": r.stderr[-400:]}
+    for mode in ("-O", "-OO"):
+        for spec in specs:
+            chk.count(1, key=f"interp-{mode}-{spec.split('::')[1]}")
+            chk.hist("interpreter_mode", mode)
+            a, b = res["ordinary"].get(spec), res[mode].get(spec)
+            if a is None:
+                continue
+            if b != a:
+                fn, name = spec.split("::")
+                chk.failing_input(f"collection read under `python {mode}` vs the ordinary interpreter", {"file": os.path.basename(fn), "branch": name, "interpreter_flags": mode},
+                                  {"type": (b or [res[mode].get("error")])[0][:400], "n": (b or [None, None, None])[2]}, {"type": a[0][:400], "n": a[2]},
+                                  "the decoded collection (type and values) does not depend on the interpreter's optimisation mode")
+                return
+
+
 def main(chk: core.Check) -> int:
     thorough = chk.tier == "thorough"
     chk.coverage["rule"] = ("evaluations = synthetic streams (three-way) + objects of fixture branches compared leaf by leaf with uproot's own deserialisation + events framed by the model; "
@@ -634,6 +680,8 @@ def main(chk: core.Check) -> int:
         factory_chain(chk, thorough)
         cgem_streams(chk, 300 if thorough else 60)
         fixtures(chk, thorough)
+        if not [f for f in chk.failing if not f.get("finding_key")]:
+            interpreter_modes(chk)
         chk.coverage["traces_validated_against_impl"] = chk.evals
     except native.BuildError as ex:
         chk.obligation_broken("correspondence", "native build of root_io.hh", str(ex))
